@@ -728,6 +728,230 @@ def qha_part(ctx, forms, EV, NA):
     return cases
 
 
+# ----------------------------------------------------------------------------- call sequences
+CFG_SEQ = """INIT %s
+NEXT %s
+CONSTANTS
+ Runs <- MCRuns
+ AliasKinds <- %s
+%sCHECK_DEADLOCK FALSE
+"""
+MC_SEQ = """---- MODULE MC_QhaSeqTrace ----
+EXTENDS QhaSeqTrace
+MCRuns == {%s}
+MCNoAlias == {}
+MCAlias == {"c", "f", "strided"}
+MCEvents == {%s}
+====
+"""
+SEQ_PRESSURES = [None, Fr(2), Fr(5), Fr(-1), None]
+
+
+def seq_arrays(case, kind):
+    """The caller's array objects (re-used by every call of a sequence) for one array kind."""
+    el = np.array(case.el, dtype=float)
+    vols = np.array(case.volumes, dtype=float)
+    if kind == "f":
+        el = np.asfortranarray(el)
+    elif kind == "strided":
+        big = np.zeros(el.shape[:-1] + (2 * el.shape[-1],))
+        big[..., ::2] = el
+        el = big[..., ::2]
+        bv = np.zeros(2 * len(vols))
+        bv[::2] = vols
+        vols = bv[::2]
+    elif kind == "int":
+        el = el.astype(np.int64)
+    elif kind == "list":
+        el = el.tolist()
+        vols = vols.tolist()
+    return dict(volumes=vols, el=el, T=np.array(case.T, dtype=float), ph=np.array(case.ph), cv=np.array(case.cv),
+                entropy=np.array(case.entropy))
+
+
+def seq_copy(a):
+    import copy
+
+    return {k: (np.array(v, copy=True, order="K") if isinstance(v, np.ndarray) else copy.deepcopy(v))
+            for k, v in a.items()}
+
+
+def seq_same(a, b):
+    for k in a:
+        x, y = a[k], b[k]
+        if isinstance(x, np.ndarray):
+            if not (isinstance(y, np.ndarray) and x.dtype == y.dtype and x.shape == y.shape
+                    and x.tobytes() == y.tobytes()):
+                return False
+        elif x != y:
+            return False
+    return True
+
+
+def seq_call(case, api, arrs, P, EV, NA):
+    """One constructor call on the given array objects; rows seen by the fit and returned tables."""
+    import io
+    import contextlib
+    import phonopy.qha.core as core
+    from phonopy import PhonopyQHA
+
+    orig_fit, orig_run = core.fit_to_eos, core.QHA.run
+    probe = L.FitProbe(case, orig_fit, "real")
+
+    def run_wrapped(self, *a, **kw):
+        probe.phase = "qha"
+        return orig_run(self, *a, **kw)
+
+    core.fit_to_eos, core.QHA.run = probe, run_wrapped
+    out, status = {}, "ok"
+    pr = None if P is None else float(P)
+    try:
+        with contextlib.redirect_stdout(io.StringIO()):
+            if api == "BulkModulus":
+                b = core.BulkModulus(arrs["volumes"], arrs["el"], pressure=pr, eos=case.eos)
+                out["bm"] = np.concatenate([np.atleast_1d(np.asarray(x, dtype=float)) for x in b.get_parameters()])
+            else:
+                if api == "PhonopyQHA":
+                    q = PhonopyQHA(volumes=arrs["volumes"], electronic_energies=arrs["el"], temperatures=arrs["T"],
+                                   free_energy=arrs["ph"], cv=arrs["cv"], entropy=arrs["entropy"], eos=case.eos,
+                                   pressure=pr)
+                    out["bm"] = np.concatenate([np.atleast_1d(np.asarray(x, dtype=float))
+                                                for x in q.get_bulk_modulus_parameters()])
+                else:
+                    q = core.QHA(arrs["volumes"], arrs["el"], arrs["T"], arrs["cv"], arrs["entropy"], arrs["ph"],
+                                 pressure=pr, eos=case.eos)
+                    q.run()
+                for nm in ("volume_temperature", "gibbs_temperature", "bulk_modulus_temperature", "thermal_expansion",
+                           "heat_capacity_P_numerical", "gruneisen_temperature", "helmholtz_volume"):
+                    out[nm] = np.asarray(getattr(q, nm), dtype=float)
+    except Exception as e:
+        status = "raised:" + type(e).__name__
+    finally:
+        core.fit_to_eos, core.QHA.run = orig_fit, orig_run
+    return probe.calls, out, status
+
+
+def seq_effective_pressure(case, api, calls, EV, NA):
+    """Coefficient (GPa) of the V term in the rows that reached the fit, relative to the pristine energies."""
+    V = case.volumes
+    upv = L.unit_factor(L.REQ_PV, EV, NA)
+    uph = L.unit_factor(L.REQ_PH, EV, NA)
+    el = np.asarray(case.el, dtype=float)
+    el = el if case.shape == "TV" else el[None, :]
+    phase = "bulkmodulus" if api == "BulkModulus" else "qha"
+    rows = [r for ph, _, r, _ in calls if ph == phase]
+    vals, ok = [], bool(rows)
+    for i, r in enumerate(rows):
+        j = min(i, len(el) - 1) if case.shape == "TV" else 0
+        base = el[j] + (0 if phase == "bulkmodulus" else uph * case.ph[i])
+        alpha, lin = L.identify_linear(r - base, V, 1e-9 * max(1.0, float(np.abs(r).max())))
+        ok = ok and lin
+        vals.append(alpha / upv)
+    if not vals:
+        return 0.0, False
+    return float(vals[0]), bool(ok and max(vals) - min(vals) <= 1e-6)
+
+
+def seq_part(ctx, forms, EV, NA):
+    """Call sequences re-using the caller's arrays (QhaSeq.tla / QhaSeqTrace.tla)."""
+    rng = ctx.rng
+    events, runs = [], []
+    kinds = ["c", "f", "strided", "int", "list"]
+    rid = 0
+    for api in ("PhonopyQHA", "QHA", "BulkModulus"):
+        for shape in ("V", "TV"):
+            for kind in kinds:
+                for rep in range(1 if ctx.quick else 3):
+                    rid += 1
+                    press = list(SEQ_PRESSURES)
+                    if rep:
+                        rng.shuffle(press)
+                    case = make_case(900000 + rid, [0, 10, 20, 30, 40], None, shape, None, EOS_NAMES[rid % 3], rng,
+                                     "real", degrees=(2, 2))
+                    case.wf = False
+                    case.cvtab = [[Fr(25 + k), Fr(1, 10), Fr(0)] for k in range(5)]
+                    if kind == "int":
+                        case.eldtype = "int"
+                    case.realise(forms, EV, NA)
+                    arrs = seq_arrays(case, kind)
+                    pristine = seq_copy(arrs)
+                    sq = dict(id=rid, api=api, shape=shape, kind=kind,
+                              pressures=[dict(set=P is not None, v=L.rat(0 if P is None else P)) for P in press])
+                    obs, exact, log = [], True, []
+                    for P in press:
+                        calls, out, status = seq_call(case, api, arrs, P, EV, NA)
+                        fcalls, fout, fstatus = seq_call(case, api, seq_copy(pristine), P, EV, NA)
+                        peff, ok = seq_effective_pressure(case, api, calls, EV, NA)
+                        r = Fr(peff).limit_denominator(1000) if np.isfinite(peff) else Fr(7)
+                        ok = ok and abs(peff - float(r)) <= 1e-6 and status == "ok"
+                        if abs(r.numerator) > 10 ** 6:
+                            r, ok = Fr(7), False
+                        fresh = (status == fstatus and set(out) == set(fout)
+                                 and all(out[k].shape == fout[k].shape and np.allclose(out[k], fout[k], rtol=1e-9,
+                                                                                         atol=1e-12) for k in out))
+                        unmod = seq_same(pristine, arrs)
+                        exact = exact and ok
+                        obs.append(dict(pv=L.rat(r), fresh=bool(fresh), unmod=bool(unmod)))
+                        log.append(dict(pressure=None if P is None else str(P), effective_pressure_GPa=peff,
+                                        status=status, equals_fresh_call=bool(fresh), inputs_unmodified=bool(unmod)))
+                        ctx.count(("seq", api, shape, kind, tuple(str(x) for x in press), str(P)))
+                    events.append(dict(sq=sq, obs=obs, exact=bool(exact), _log=log, _case=case))
+                    runs.append(sq)
+    mc = MC_SEQ % (",\n".join(to_tla(r) for r in runs), ",\n".join(to_tla(public_event(e)) for e in events))
+    invs = ["InvFreshEquivalent", "InvInputsUnmodified", "ImplSeqExact", "ImplFreshEquivalent", "ImplInputsUnmodified",
+            "ConformsSeq"]
+    r = ctx.tlc("MC_QhaSeqTrace", cfg_text=CFG_SEQ % ("TInit", "TNext", "MCNoAlias", " Events <- MCEvents\n")
+                + "".join("INVARIANT %s\n" % i for i in invs), extra_files={"MC_QhaSeqTrace.tla": mc},
+                requirement=False, extra_args=("-continue",), workers=2)
+    ctx.traces += len(events)
+    ctx.extra["seq_events"] = dict(sequences=len(events), calls=sum(len(e["obs"]) for e in events),
+                                   apis=["PhonopyQHA", "QHA", "BulkModulus"], array_kinds=kinds,
+                                   pressures=[None if P is None else str(P) for P in SEQ_PRESSURES])
+    by = {e["sq"]["id"]: e for e in events}
+    seen = set()
+    for inv, tr in r.violations:
+        if inv in seen:
+            continue
+        seen.add(inv)
+        st = tr[-1][1] if tr else {}
+        e = by.get(((st.get("ev") or {}).get("sq") or {}).get("id"))
+        side = "implementation" if inv.startswith(("Impl", "Conforms")) else "specification"
+        ctx.violation("seq:" + inv, "C20 call sequence re-using the caller's arrays: %s fails on the %s" % (inv, side),
+                      dict(invariant=inv, run=e["sq"] if e else None, calls=e["_log"] if e else None,
+                           case=case_detail(e["_case"]) if e else None))
+    # specification-side control: a constructor that works on the caller's array must violate the requirement
+    names = set()
+    for inv in ("InvFreshEquivalent", "InvInputsUnmodified"):   # TLC names one violated invariant per state
+        rc = ctx.tlc("MC_QhaSeqTrace", cfg_text=CFG_SEQ % ("TInit", "TNext", "MCAlias", " Events <- MCEvents\n")
+                     + "INVARIANT %s\n" % inv, extra_files={"MC_QhaSeqTrace.tla": mc}, requirement=False, workers=2)
+        if rc.violated:
+            names.add(rc.violated)
+    ctx.extra["seq_alias_model_control"] = sorted(names)
+    if not {"InvFreshEquivalent", "InvInputsUnmodified"} <= names:
+        raise tlcmod.MachineryError("QhaSeq with aliasing constructors does not violate the requirement: %r" % names)
+    # trace-side control: an accumulated pressure / a modified input must be rejected
+    if not r.violations:
+        import copy
+
+        bad = []
+        for what in ("pv", "fresh", "unmod"):
+            c = copy.deepcopy(public_event(events[0]))
+            c["sq"]["id"] = 990000 + len(bad)
+            if what == "pv":
+                c["obs"][2]["pv"] = L.rat(Fr(7))
+            else:
+                c["obs"][2][what] = False
+            bad.append(c)
+        mcb = MC_SEQ % (",\n".join(to_tla(b["sq"]) for b in bad), ",\n".join(to_tla(b) for b in bad))
+        rb = ctx.tlc("MC_QhaSeqTrace", cfg_text=CFG_SEQ % ("TInit", "TNext", "MCNoAlias", " Events <- MCEvents\n")
+                     + "".join("INVARIANT %s\n" % i for i in invs), extra_files={"MC_QhaSeqTrace.tla": mcb},
+                     requirement=False, extra_args=("-continue",), workers=1)
+        nb = set(n for n, _ in rb.violations)
+        ctx.extra["seq_negative_controls"] = sorted(nb)
+        if not {"ImplFreshEquivalent", "ImplInputsUnmodified"} <= nb:
+            raise tlcmod.MachineryError("corrupted call-sequence events not rejected: %r" % nb)
+
+
 MC_QHAMODEL = """---- MODULE MC_QhaModel ----
 EXTENDS QhaModel
 MCSteps == {10, 20}
@@ -804,6 +1028,9 @@ def run(ctx):
     model_part(ctx)
     ctx.extra["t_model_s"] = round(time.time() - t1, 1)
     cases = qha_part(ctx, forms, EV, NA)
+    t2 = time.time()
+    seq_part(ctx, forms, EV, NA)
+    ctx.extra["t_seq_s"] = round(time.time() - t2, 1)
     tally = {}
     for c in cases:
         for key, on in (("family:" + c.family, c.family != "main"), ("writes files", c.wf),
